@@ -57,7 +57,7 @@ var mandatoryKeys = [][2]string{
 }
 
 func runC13(c *ctx, r *Report) error {
-	r.Rule = "the three base workflows (every section of the syntax); at EVERY mapping node: (1) insert a foreign key — three spellings: fresh `zz-unknown`, a near-miss of an accepted key, an accepted key of a different section — at the front, middle and end; (2) repeat an existing key in the same and in changed letter case; (3) delete each mandatory key; the real linter's diagnostics before/after are compared as multisets of (message, kind): exactly one new diagnostic at the inserted / repeated key (none for free-name mappings), nothing else appears or disappears; each mutation is also applied on top of a sibling defect (a malformed placeholder in a neighbouring value) to check that the sibling's diagnostic survives; non-trivial = distinct (file, mapping path, mutation) triples"
+	r.Rule = "the three base workflows (every section of the syntax); at EVERY mapping node: (1) insert a foreign key — three spellings: fresh `zz-unknown`, a near-miss of an accepted key, an accepted key of a different section — at the front, middle and end; (1b) where the key set is case-sensitive, every accepted key re-spelled in another letter case must be reported as unexpected; (2) repeat an existing key in the same and in changed letter case; (3) delete each mandatory key; the real linter's diagnostics before/after are compared as multisets of (message, kind): exactly one new diagnostic at the inserted / repeated key (none for free-name mappings), nothing else appears or disappears; each mutation is also applied on top of a sibling defect (a malformed placeholder in a neighbouring value) to check that the sibling's diagnostic survives; non-trivial = distinct (file, mapping path, mutation) triples"
 	sitesFixed, sitesFree := 0, 0
 	for _, name := range []string{"a.yml", "b.yml", "c.yml"} {
 		root, err := parseYAML(wfBases[name])
@@ -181,6 +181,44 @@ func runC13(c *ctx, r *Report) error {
 							if !at {
 								r.finding("key-report-position:"+gk, fmt.Sprintf("%s (%q) at %s is reported, but not at the key (%d:%d)", what, keyText, strings.Join(v.keys, "."), kn.Line, kn.Column), mk(strings.Join(gained, " || ")))
 							}
+						}
+					}
+				}
+				// (1b) where the key set is fixed and case-sensitive, an accepted key written in another letter case is a key
+				// outside the set: rename each key in turn (other diagnostics — e.g. a mandatory key now missing — may come
+				// on top, the key itself must be reported as unexpected, at the key)
+				if !free && !caseInsensitiveMapping(v.keys) && !withSibling {
+					for i := 0; i < nPairs; i++ {
+						k := v.node.Content[2*i].Value
+						k2 := strings.ToUpper(k[:1]) + k[1:]
+						if k2 == k {
+							continue
+						}
+						m := cloneNode(baseTree)
+						nodeAt(m, v.path).Content[2*i].Value = k2
+						src, _, re, err := lint(m)
+						r.Evaluations++
+						if err != nil {
+							continue
+						}
+						errs, _ := lintSrc(name, src)
+						kn := nodeAt(re, v.path).Content[2*i]
+						item := nodeAt(re, v.path)
+						found := false
+						for _, e := range errs {
+							atKey := e.Line == kn.Line && e.Column == kn.Column
+							if gk == "on.schedule.[]" {
+								atKey = e.Line == item.Line && e.Column == item.Column
+							}
+							// (worded "unexpected key …", "expected … key … but got …" or "unknown Webhook event …")
+							if atKey && (strings.Contains(e.Message, "\""+k2+"\"") || gk == "on.schedule.[]") {
+								found = true
+							}
+						}
+						r.hist("recased-key")
+						if !found {
+							r.finding("recased-key-accepted:"+gk, fmt.Sprintf("the key %q of %s written as %q (the key set is case-sensitive here) is not reported as an unexpected key", k, strings.Join(v.keys, "."), k2),
+								Case{Op: "lint-mutated", Input: map[string]string{"file": name, "mapping": strings.Join(v.keys, "."), "mutation": "key " + k + " → " + k2, "yaml": src}})
 						}
 					}
 				}
